@@ -61,6 +61,8 @@ META = {
              'further guarded streams: id-forms (explicit ids / get arguments in the non-canonical type: text for an int key, int for a '
              'str key; a class with idType=str), explicit-connection (classes bound to connection A, every access with connection=B), '
              'inheritance (oracle only: V/Car/Truck family + ForeignKey to the root, default and explicit connection); '
+             'transactions (oracle only: read/empty transactions rolled back or committed on a cache on/off connection: the '
+             'transaction hands out its own instances, every access path of the main connection keeps returning the held ones); '
              'distinct = distinct (cfg, history); non-trivial = the history has at least one cache hit on a held object, cull or gc'),
     'trusted': ['the reference semantics of the Python fragment the callers are written in (lean/SqlObjVerif/Model/PyGet.lean), the AST '
                 'translator vlib/extractors/pyget.py, and the interface instantiation stated in the header of Model/GetX.lean: one '
@@ -1052,6 +1054,106 @@ def report_failure(ctx, cfg, hist, w, reported):
     return key
 
 
+
+# ---- transactions: a Transaction has an identity map of its own ------------------------------------------------------
+_tx_envs = {}
+
+
+def tx_env(do_cache):
+    if do_cache in _tx_envs:
+        return _tx_envs[do_cache]
+    sqlo.setup()
+    from sqlobject import SQLObject, StringCol, ForeignKey, MultipleJoin
+    conn = sqlo.mem_conn(cache=bool(do_cache))
+    oname, pname = sqlo.uniq('C04TO'), sqlo.uniq('C04TP')
+    O = type(oname, (SQLObject,), {'_connection': conn, '__module__': __name__, 'name': StringCol(alternateID=True),
+                                   'pets': MultipleJoin(pname, joinColumn='owner_id')})
+    P = type(pname, (SQLObject,), {'_connection': conn, '__module__': __name__, 'name': StringCol(),
+                                   'owner': ForeignKey(oname)})
+    O.createTable()
+    P.createTable()
+    e = {'conn': conn, 'O': O, 'P': P, 'n': [0]}
+    _tx_envs[do_cache] = e
+    return e
+
+
+def execute_tx(do_cache, steps):
+    """steps: 'read-rollback' | 'empty-commit' | 'empty-rollback' | 'gc'.  Oracle: through a
+    transaction the application gets instances of the transaction's own identity map (bound to it, one per row);
+    on the main connection every access path keeps returning the held objects, before, between and after."""
+    e = tx_env(do_cache)
+    O, P, conn = e['O'], e['P'], e['conn']
+    e['n'][0] += 1
+    fails = []
+    try:
+        owner = O(name='o%d' % e['n'][0])
+        pet = P(name='p', owner=owner)
+        oid, pid, oname = owner.id, pet.id, owner.name
+
+        def paths(tag):
+            for what, f in (('get', lambda: O.get(oid) is owner), ('byName', lambda: O.byName(oname) is owner),
+                            ('select', lambda: [x for x in O.select(O.q.id == oid)][0] is owner),
+                            ('get pet', lambda: P.get(pid) is pet), ('foreign key', lambda: pet.owner is owner),
+                            ('join', lambda: owner.pets[0] is pet)):
+                if not f():
+                    fails.append('%s: %s does not return the held instance' % (tag, what))
+        paths('before')
+        for st in steps:
+            if st == 'gc':
+                gc.collect()
+                paths('after gc')
+                continue
+            trans = conn.transaction()
+            if st.startswith('read'):
+                t = O.get(oid, connection=trans)
+                if t is owner:
+                    fails.append("get(connection=trans) hands out the main connection's instance")
+                if t._connection is not trans:
+                    fails.append('the instance fetched through the transaction is not bound to it')
+                if O.byName(oname, connection=trans) is not t:
+                    fails.append('byName(connection=trans) is not get(connection=trans)')
+                del t
+            if st.endswith('rollback'):
+                trans.rollback()
+            else:
+                trans.commit(close=True)
+            del trans
+            paths('after ' + st)
+    except Exception as exc:      # an exception of the real code is an outcome, never a harness crash
+        fails.append('exception %s' % sqlo.exc_name(exc))
+    return fails
+
+
+# (a COMMITTED transaction that touched the row expires it in the parent's cache by design: the E1 class, C07/C08's subject)
+TX_STEPS = ('read-rollback', 'empty-commit', 'empty-rollback', 'gc')
+
+
+def run_tx(ctx, reported):
+    for k in range(ctx.budget(60, 600)):
+        do_cache = k % 2
+        steps = tuple(TX_STEPS[ctx.rng.randrange(len(TX_STEPS))] for _ in range(ctx.rng.randint(1, 4)))
+        fails = execute_tx(do_cache, steps)
+        ctx.case(('tx', do_cache, steps), nontrivial=any(s != 'gc' for s in steps), kind='transaction cache=%d' % do_cache)
+        if fails:
+            small = steps
+            for s in steps:            # minimise to one step when one step suffices
+                if s != 'gc' and execute_tx(do_cache, (s,)):
+                    small = (s,)
+                    fails = execute_tx(do_cache, small)
+                    break
+            key = 'C04:transaction:%s' % '-then-'.join(small)
+            if key not in reported:
+                reported.add(key)
+                ctx.oracle_fail(key, '%s (cache=%s, transaction steps %s)' % (fails[0], bool(do_cache), ' ; '.join(small)),
+                                {'transaction': True, 'doCache': do_cache, 'steps': list(small)})
+
+
+def replay_tx(case):
+    fails = execute_tx(case['doCache'], tuple(case['steps']))
+    return (not fails), '\n'.join(['cache=%s transaction steps %s' % (bool(case['doCache']), case['steps'])] +
+                                  ['ORACLE FAILURE: ' + f for f in fails] + ([] if fails else ['oracle: no failure']))
+
+
 def run(ctx):
     gc.collect()
     worlds = []       # (cfg, hist, world, stream)
@@ -1111,6 +1213,8 @@ def run(ctx):
                  kind='inheritance%s cache=%d' % (' explicit-connection' if len(cfg) > 3 else '', cfg[0]))
         if w.fails:
             report_inh(ctx, cfg, hist, reported)
+    # 2c. transactions (oracle only): a Transaction has an identity map of its own, whatever the connection's cache setting
+    run_tx(ctx, reported)
     # 3. correspondence: all histories through the model driver in one call
     lines = []
     for cfg, hist, w, stream in worlds:
@@ -1144,9 +1248,13 @@ def run(ctx):
 
 
 def replay(case):
+    if case.get('transaction'):
+        return replay_tx(case)
     cfg = (case['cfg']['doCache'], case['cfg']['cullFrequency'], case['cfg']['cullFraction'])
     if case['cfg'].get('explicitConnection'):
         cfg = cfg + (1,)
+    if case.get('transaction'):
+        return replay_tx(case)
     if case.get('inheritance'):
         return replay_inh(case)
     hist = [tuple(tuple(x) if isinstance(x, list) else x for x in op) for op in case['history']]
